@@ -212,7 +212,7 @@ class CacheDriver(explore.Driver):
                 x.tobytes() for x in _as_list(cached.Cache._cache[k])
             )).hexdigest() for k in keys)
         except Exception:
-            return id(st)
+            return explore.unique_token()
         return (keys, vals, st.lastraw is not None and id(st.lastraw) in
                 [id(v) for v in cached.Cache._cache.values()])
 
@@ -378,7 +378,7 @@ class ContourDriver(explore.Driver):
             return (tuple(st.lcl.indices),
                     tuple(c.tobytes() for c in st.lcl.contours))
         except AttributeError:
-            return id(st)
+            return explore.unique_token()
 
 
 # -- dataset interface: read / mutate / read -------------------------------------
